@@ -641,18 +641,21 @@ Qed.
 
 (* the invariant does not depend on the widths, weight and frequency configured for the hills to come *)
 Lemma Inv_par c p g0 m s : Inv c g0 m s -> Inv (with_par c p) g0 m s.
-Proof. intros [f1 f2 f3 f4 f5 f6 f7 f8 f9 f10 f11]. constructor; assumption. Qed.
+Proof.
+  intros [f1 f2 f3 f4 f5 f6 f7 f8 f9 f10 f11]. constructor; try assumption.
+  cbn [with_par c_keep]. intros H. apply andb_prop in H. apply f2. tauto.
+Qed.
 
 Lemma final_cfg_cons (c : cfgR) e hist : final_cfg c (e :: hist) = final_cfg (next_cfg c e) hist.
 Proof. reflexivity. Qed.
 
 Lemma final_cfg_fixed (c : cfgR) hist :
   c_vars (final_cfg c hist) = c_vars c /\ c_use_grids (final_cfg c hist) = c_use_grids c /\
-  c_keep (final_cfg c hist) = c_keep c /\ c_eb (final_cfg c hist) = c_eb c /\ c_geom0 (final_cfg c hist) = c_geom0 c.
+  c_eb (final_cfg c hist) = c_eb c /\ c_geom0 (final_cfg c hist) = c_geom0 c.
 Proof.
   revert c. induction hist as [|e hist IH]; intros c; [repeat split|].
-  rewrite final_cfg_cons. destruct (IH (next_cfg c e)) as (H1 & H2 & H3 & H4 & H5).
-  rewrite H1, H2, H3, H4, H5. destruct e; repeat split.
+  rewrite final_cfg_cons. destruct (IH (next_cfg c e)) as (H1 & H2 & H3 & H4).
+  rewrite H1, H2, H3, H4. destruct e; repeat split.
 Qed.
 
 Lemma frun_app {A} (f : cfgR -> A -> eventR -> A) h1 : forall c h2 a,
@@ -853,12 +856,11 @@ Qed.
 
 Lemma schedule_holds c hist : cfg_ok c -> history_ok c hist ->
   st_new (final_state Rops c hist) = s_pend (spec_run c hist) /\
-  (c_keep c = true -> st_old (final_state Rops c hist) = s_tab (spec_run c hist)) /\
+  (c_keep (final_cfg c hist) = true -> st_old (final_state Rops c hist) = s_tab (spec_run c hist)) /\
   Dropped (fun _ => True) (s_tab (spec_run c hist)) (st_old (final_state Rops c hist)) /\
   st_geom (final_state Rops c hist) = s_geom (spec_run c hist).
 Proof.
-  intros H1 H2. destruct (run_inv c hist H1 H2) as [[Hnew Hold Hsub Hgeom _ _ _ _ _ _ _] _].
-  destruct (final_cfg_fixed c hist) as (_ & _ & Hk & _). rewrite Hk in Hold. auto.
+  intros H1 H2. destruct (run_inv c hist H1 H2) as [[Hnew Hold Hsub Hgeom _ _ _ _ _ _ _] _]. auto.
 Qed.
 
 Lemma energy_holds c hist i : cfg_ok c -> history_ok c (hist ++ [EStep i]) ->
@@ -1060,14 +1062,14 @@ Proof.
   unfold spec_step, spec_expand. rewrite next_geom_keep. reflexivity.
 Qed.
 
-Lemma next_cfg_keep (c : cfgR) b e : next_cfg (set_keep c b) e = set_keep (next_cfg c e) b.
-Proof. destruct e; reflexivity. Qed.
+Lemma next_cfg_keep (c : cfgR) b e : exists b', next_cfg (set_keep c b) e = set_keep (next_cfg c e) b'.
+Proof. destruct e as [i| |r| |p]; try (exists b; reflexivity). exists (b && p_keep p)%bool. reflexivity. Qed.
 
 Lemma spec_run_keep c b hist : spec_run (set_keep c b) hist = spec_run c hist.
 Proof.
   unfold spec_run. change (c_geom0 (set_keep c b)) with (c_geom0 c). generalize (mkS [] [] (c_geom0 c)).
-  revert c. induction hist as [|e hist IH]; intros c s; cbn [frun]; [reflexivity|].
-  rewrite spec_event_keep, next_cfg_keep. apply IH.
+  revert c b. induction hist as [|e hist IH]; intros c b s; cbn [frun]; [reflexivity|].
+  rewrite spec_event_keep. destruct (next_cfg_keep c b e) as [b' ->]. apply IH.
 Qed.
 
 Lemma keep_hills_irrelevant c b hist i : cfg_ok c ->
